@@ -17,7 +17,7 @@ open Pharmpy Pharmpy.C12
 abbrev S := String
 
 def idCodec : Codec S S :=
-  { ser := id, de := some, serM := id, deM := some, strT := fun es => es.headD "" }
+  { ser := id, de := some, serM := id, deM := some }
 
 /-! ### json.dumps (default separators, ensure_ascii) -/
 
@@ -132,10 +132,7 @@ def rvsOf? : Sexp → Option (RandomVariables S S)
     some { dists := ← listOf? distOf? ds, etaLevels := ← listOf? levelOf? eta, epsLevels := ← listOf? levelOf? eps }
   | _ => none
 
-def derivOf? : Sexp → Option (Deriv S)
-  | .list [.atom "tup", .atom s] => some (.tup [s])
-  | .list [.atom "raw", .atom s] => some (.raw s)
-  | _ => none
+def derivOf? : Sexp → Option (List String) := listOf? Sexp.asAtom?
 
 def stepOf? : Sexp → Option (Step S)
   | .list [.atom "est", me, ia, pu, ev, mx, la, isa, ni, au, ke, ders, pr, re, ie, so, rt, at_, to] => do
@@ -205,8 +202,8 @@ def toDictOf (kind : String) (x : Sexp) : Sexp :=
   | "level" => answer (levelOf? x) (fun v => okText v.toDict)
   | "dist" => answer (distOf? x) (fun v => okText (v.toDict c))
   | "rvs" => answer (rvsOf? x) (fun v => okText (v.toDict c))
-  | "step" => answer (stepOf? x) (fun v => okText (v.toDict c))
-  | "steps" => answer (listOf? stepOf? x) (fun v => okText (Steps.toDict c v))
+  | "step" => answer (stepOf? x) (fun v => okText (v.toDict))
+  | "steps" => answer (listOf? stepOf? x) (fun v => okText (Steps.toDict v))
   | "datainfo" => answer (diOf? x) (fun v => okText v.toDict)
   | "model" => answer (modelOf? x) (fun v => okText (v.toDict c))
   | _ => bad
@@ -229,7 +226,7 @@ def roundtripOf (kind : String) (j : Json) : Sexp :=
   | "level" => fin (VarLevel.fromDict j) (·.toDict)
   | "hierarchy" => fin (Hierarchy.fromDict j) Hierarchy.toDict
   | "rvs" => fin (RandomVariables.fromDict c j) (·.toDict c)
-  | "steps" => fin (Steps.fromDict (E := S) j) (Steps.toDict c)
+  | "steps" => fin (Steps.fromDict (E := S) j) (Steps.toDict)
   | "datainfo" => fin (DataInfo.fromDict j) (·.toDict)
   | "model" => fin (Model.fromDict c j) (·.toDict c)
   | _ => bad
